@@ -115,6 +115,17 @@ CLAIMED = {
              'trusted), not kernel-checked per file; the predicate is my reading of the property and of tests/check.sh.',
         technique='Lean 4 decidable predicate evaluated exhaustively on the tree + Lean theorems on what the contract implies',
         ref='8/C19'),
+    'C13': dict(
+        text='Lean 4 theorems on the model of Resolve: for every preamble the rules that are not variables leave the += folding loop '
+             'unchanged and in order (C13_preamble_kept, by induction over the loop); a second definition, an undefined reference and '
+             'a direct self reference are errors; a value without reference is returned as is; the indirect cycle exhausts any fuel '
+             '(kernel-evaluated witness of the known crash). The model is run against Resolve on generated preambles; the real result '
+             'is compared with an independent all-combinations expander and, for a subset, with apparmor_parser -D expanded-variables.',
+        note='Trusted: Lean kernel; the substitution semantics (all combinations) is decided by the search against the independent '
+             'expander and the reference parser 3.0.8, not by a theorem; preambles are built as structures (parsing is C09); '
+             'values compared as multisets after collapsing //.',
+        technique='Lean 4 proof (loop invariant of the += folding, error cases) + differential run + reference-parser oracle',
+        ref='8/C13'),
 }
 
 REASON_TODO = 'check not built yet in this round; no claim is made (see DESIGN.md section 13)'
